@@ -326,13 +326,27 @@ impl Ast {
         match self {
             Ast::Literal(ref value) => fmt::Display::fmt(value, formatter),
             Ast::Column(ref name) => formatter.write_str(name.as_str()),
+            Ast::UnOp(UnOp::BoolNot, ref arg) => {
+                // NOT binds looser than the comparison operators, so it needs
+                // parentheses when it is an operand of anything tighter.
+                let op_prec = 3;
+                if op_prec < parent_prec {
+                    formatter.write_str("(")?;
+                }
+                formatter.write_str("NOT ")?;
+                arg.format_with_precedence(formatter, op_prec)?;
+                if op_prec < parent_prec {
+                    formatter.write_str(")")?;
+                }
+                Ok(())
+            }
             Ast::UnOp(op, ref arg) => {
                 match op {
                     UnOp::Neg => formatter.write_str("-")?,
                     UnOp::BitNot => formatter.write_str("~")?,
-                    UnOp::BoolNot => formatter.write_str("NOT ")?,
+                    UnOp::BoolNot => unreachable!(),
                 }
-                arg.format_with_precedence(formatter, 10)
+                arg.format_with_precedence(formatter, 11)
             }
             Ast::BinOp(op, ref arg1, ref arg2) => {
                 let op_prec = op.precedence();
@@ -519,21 +533,21 @@ impl BinOp {
 
     fn precedence(&self) -> i32 {
         match *self {
-            BinOp::Eq => 3,
-            BinOp::Ne => 3,
-            BinOp::Lt => 3,
-            BinOp::Le => 3,
-            BinOp::Gt => 3,
-            BinOp::Ge => 3,
-            BinOp::Add => 8,
-            BinOp::Sub => 8,
-            BinOp::Mul => 9,
-            BinOp::Div => 9,
-            BinOp::BitAnd => 6,
-            BinOp::BitOr => 4,
-            BinOp::BitXor => 5,
-            BinOp::Shl => 7,
-            BinOp::Shr => 7,
+            BinOp::Eq => 4,
+            BinOp::Ne => 4,
+            BinOp::Lt => 4,
+            BinOp::Le => 4,
+            BinOp::Gt => 4,
+            BinOp::Ge => 4,
+            BinOp::Add => 9,
+            BinOp::Sub => 9,
+            BinOp::Mul => 10,
+            BinOp::Div => 10,
+            BinOp::BitAnd => 7,
+            BinOp::BitOr => 5,
+            BinOp::BitXor => 6,
+            BinOp::Shl => 8,
+            BinOp::Shr => 8,
         }
     }
 }
